@@ -222,6 +222,12 @@ def _splice_fn(seg, m, c):
         if "entry" in at:
             entry_txt = at.pop("entry")
         for mk, txt in at.items():
+            if mk.startswith("~"):
+                # glob anchor: the block is spliced at EVERY marker matching the pattern (possibly none)
+                rx = re.escape(mk[1:].strip()).replace(r"\*", "[A-Za-z0-9_]*")
+                pat = re.compile(r"^[ \t]*__rws_pt!\(%s\);[ \t]*\n" % rx, re.M)
+                body = pat.sub(lambda _m: txt, body)
+                continue
             pat = re.compile(r"^[ \t]*__rws_pt!\(%s\);[ \t]*\n" % re.escape(mk), re.M)
             if not pat.search(body):
                 raise Undecided("LOST-ANCHOR: marker %s not found in %s" % (mk, m["name"]))
